@@ -21,11 +21,17 @@ warnings.filterwarnings("ignore")
 st = hyp.st
 
 
-def make_function_graph(spec, force_refs=True, rewrite=False):
+def make_function_graph(spec, force_refs=True, rewrite=False, alt=None):
+    """alt: None, or the default constant type of an alternative constant context (constants are then held and folded
+    in that type and cast to their static type where they are used)"""
     import functional_algorithms as fa
     from functional_algorithms.expr import make_apply
 
-    ctx, ex, root, syms = progs.build(spec)
+    if alt is not None:
+        ctx0 = fa.Context(paths=[fa.algorithms], enable_alt=True, default_constant_type=alt)
+        ctx, ex, root, syms = progs.build(spec, ctx=ctx0)
+    else:
+        ctx, ex, root, syms = progs.build(spec)
     if force_refs:
         for i, e in enumerate(ex):
             if e.kind not in ("symbol", "list"):
@@ -71,8 +77,12 @@ def check(case):
     spec = case["spec"]
     info = {"nodes": 0, "runs": 0, "runtime_errors": 0}
     out = []
+    if case.get("alt") is not None and any(nd[0] in ("list", "item", "named") for nd in spec["nodes"]):
+        # alternative constant context: only numeric literals in scalar arithmetic are exercised (lists indexed by an
+        # alt constant and named constants narrower than the alt type are outside what that context is used for)
+        case = dict(case, alt=None)
     try:
-        ctx, g, ex, syms = make_function_graph(spec, rewrite=case.get("rewrite", False))
+        ctx, g, ex, syms = make_function_graph(spec, rewrite=case.get("rewrite", False), alt=case.get("alt"), force_refs=case.get("force_refs", True))
     except NotImplementedError:
         return [], info  # numpy target rejects the graph
     except Exception as e:
@@ -195,7 +205,7 @@ def replay(case):
 
 def cases():
     return st.builds(
-        lambda spec, vseed, rw: {"spec": progs.prune(spec), "vseed": vseed, "rewrite": rw},
+        lambda spec, vseed, rw, alt, fr: {"spec": progs.prune(spec), "vseed": vseed, "rewrite": rw, "alt": alt, "force_refs": fr},
         progs.programs(
             main_sorts=("f16", "f32", "f64"),
             max_nodes=18,
@@ -209,6 +219,8 @@ def cases():
         ),
         st.integers(0, 2**31 - 1),
         st.booleans(),
+        st.sampled_from([None, None, None, "float64", "float32"]),  # alternative constant context of the given type
+        st.sampled_from([True, True, False]),  # every node referenced (asserted) / printed inline where used once
     )
 
 
